@@ -330,6 +330,10 @@ func rulesC06(e *Engine, r *Report) {
 		r.Check(len(st) == 1, "R06.6", "stage.(*Stage).setCanReceive stores its argument", e.Pos(fn.Pos()), "setCanReceive no longer stores the requested value", 1)
 	}
 
+	// ---------------------------------------------------------------- R06.10
+	r.Rule("R06.10", "recovery's validation pool finishes: the workers Recover starts keep receiving until the hand-over channel is closed, Recover closes it on every path after starting them and waits only after the close (a worker leaving early strands the plain send and the receiver stays `unavailable` for ever)")
+	e.checkWorkerPools(r, "R06.10", 1, "stage")
+
 	// ---------------------------------------------------------------- R06.7
 	r.Rule("R06.7", "the validator's transitions are ordered: state `validated` is set only after the Full→Wait rename succeeded, and the hand-over to finalize only after the state was set; recovery marks a file `received` before it validates it")
 	if fn := needFn(e, r, "R06.7", "stage.(*Stage).process"); fn != nil {
